@@ -35,3 +35,4 @@ package datadog
 //@   requires validchunk(chunk)
 //@   modifies chunk.numBytes, wbytes[cwriter(chunk)], wbytes[ref(chunk.writeBuffer)]
 //@   ensures  result.1 == nil ==> result.0 != nil && result.0.ID === chunk.id && !result.0.Saved
+//@   ensures[data-is-a-private-copy] result.1 == nil ==> isfresh(result.0.Data) || len(result.0.Data) == 0
